@@ -56,6 +56,8 @@ LinC ==
   /\ phase[C] = "pending"
   /\ IF geo.cp[idx[C]] = "get"
        THEN IF q = <<>> THEN q' = q /\ Done(C, -1) ELSE q' = Tail(q) /\ Done(C, Head(q))
+       ELSE IF geo.cp[idx[C]] = "wait"
+       THEN q # <<>> /\ q' = q /\ Done(C, 0)                          \* the polling loop ends when (and only when) there is data
        ELSE q' = q /\ Done(C, IF q = <<>> THEN 1 ELSE 0)
   /\ UNCHANGED <<ti, geo, idx>>
 
